@@ -126,7 +126,11 @@ impl Worker {
             {
                 match job {
                     Job::Task(task) => {
-                        let _ = task();
+                        // A task that panics must not take the worker with it: the pool never
+                        // replaces a dead worker, and once all of them are gone every later call
+                        // waits for an answer nobody will send. The caller of the panicking task
+                        // sees its result channel close.
+                        let _ = std::panic::catch_unwind(std::panic::AssertUnwindSafe(task));
                     }
                     Job::Shutdown => break,
                 }
